@@ -174,8 +174,15 @@ func VerifC06_Task() {
 		}
 		return nil
 	})
-	// run the task body the way the queue handler does, without the handler
-	t.executeWithLocking()
+	// run the task the way the queue handler does (runWithLocking), without
+	// the handler's queue
+	go func() {
+		for {
+			taskTimeslot <- struct{}{}
+		}
+	}()
+	t.runWithLocking()
+	queueWg.Wait()
 	c06CheckReported(ch, "task")
 	rt.Assert(atomic.LoadInt32(m.taskCnt) == 0, "task/counter-restored")
 	t.lock.Lock()
@@ -183,8 +190,12 @@ func VerifC06_Task() {
 	rt.Assert(!t.canceled, "task/not-cancelled")
 	t.lock.Unlock()
 	// the panicked task can run again
-	t.executeWithLocking()
+	t.runWithLocking()
+	queueWg.Wait()
+	t.lock.Lock() // (the run's clean-up holds the task's lock until it is done)
+	t.lock.Unlock()
 	rt.Assert(runs == 2, "task/can-run-again")
+	rt.Assert(atomic.LoadInt32(m.taskCnt) == 0, "task/counter-restored-after-the-second-run")
 	rt.Reach("task-end")
 }
 
